@@ -25,6 +25,7 @@ def item : FItem → String
 def handle (fields : List String) : Option String :=
   match fields with
   | ["lit_token", s] => some (match tokenOfSlice (decStr s) with | some k => Drv.Lex.kind k | none => "none")
+  | ["sqlite_date", v] => some (encStr (sqliteDateLiteral (decStr v)))
   | ["sql_quote", v] => some (encStr (sqlQuote (decStr v)))
   | ["sql_quote_std", v] => some (encStr (sqlQuoteStd (decStr v)))
   | ["sql_quote_raw", v] => some (encStr (sqlQuoteRaw (decStr v)))
